@@ -5,6 +5,7 @@ CONSTANTS Paths = {1, 2}
           MaxActions = 4
           KeyModel = 0
           VStep = {1, 2}
+          TimeChoices = {0, 1, 2, 3, 4}
           WithX = TRUE
           EmitOn = FALSE
           Sim = FALSE
